@@ -326,10 +326,10 @@ BUILDER = {
         "invariants": ["Inv_C05_Wrap", "Inv_C05_Sibling", "Inv_C05_Frame"],
         "rel": "c05",
         "exh": {"quick": [("C04_Docs3", 2, 2, "C04_Range3")],
-                "thorough": [("C04_Docs3", 2, 3, "C04_Range3"), ("C04_Docs", 2, 2, "C04_Range")]},
+                "thorough": [("C04_Docs3", 2, 3, "C04_Range3")]},      # (with ("C04_Docs", 2, 2): > 50 min, every behaviour drives ~20 related histories)
         "mutations": [{"switch": "AbsLookup", "docs": "C04_Docs3", "range": "C04_Range3", "stages": (2, 2), "expect": ["Inv_C05_Wrap"]},
                       {"mutation": "PruneAlways", "docs": "C04_Docs3", "range": "C04_Range3", "stages": (2, 2), "expect": ["Inv_C05_Frame"]}],
-        "gen": _gen_c04, "random": {"quick": 700, "thorough": 12000}, "max_stages": 4,
+        "gen": _gen_c04, "random": {"quick": 700, "thorough": 3000}, "max_stages": 4,
         "nontrivial": _c04_nontrivial,
         "rule": "A: every 2(3)-stage history of the C04 universes, each replayed as written AND wrapped under the key chains a, b, a.a, "
                 "a.b (same key set as the documents) AND with a sibling subtree under a fresh root key at every stage, outcomes related; "
@@ -386,10 +386,10 @@ BUILDER = {
         "invariants": ["Inv_C15"],
         "rel": "c15",
         "exh": {"quick": [("C15_Docs3", 2, 2), ("C15_DocsDeep", 2, 2, "C15_RangeDeep")],
-                "thorough": [("C15_Docs3", 2, 3), ("C15_Docs", 2, 2, "C15_Range"), ("C15_DocsDeep", 2, 2, "C15_RangeDeep")]},
+                "thorough": [("C15_Docs3", 2, 3), ("C15_DocsDeep", 2, 2, "C15_RangeDeep")]},    # (("C15_Docs", 2, 2): > 1 h)
         "mutations": [{"switch": "DeepWrapRefills", "docs": "C15_DocsM", "stages": (2, 2), "expect": ["Inv_C15"]},
                       {"mutation": "PruneAlways", "docs": "C15_Docs3", "stages": (2, 2), "expect": ["Inv_C15"]}],
-        "gen": _gen_c15, "random": {"quick": 400, "thorough": 8000}, "max_stages": 4,
+        "gen": _gen_c15, "random": {"quick": 400, "thorough": 2000}, "max_stages": 4,
         "nontrivial": _c04_nontrivial,
         "rule": "A: every 2(3)-stage history of the C15 universes (priority, !del, !merge, lists), each replayed as written and again "
                 "(a) unchanged in the same process, (b) with the last document repeated, (c) with an empty mapping document inserted at "
